@@ -15,7 +15,7 @@ import scen
 PROP = "C13"
 POOL = ["ed1", "ed2", "ed3", "ed4", "ed5", "ed6", "edp1", "edp2", "ec-b", "ec-c"]
 KINDS = ["summary_only", "disallow", "match_next", "agreeing_surplus", "two_failing_steps", "delegated_surplus",
-         "require", "summary_first_step", "multi_party_nested_dissent", "multi_party_digest_dissent", "match_partial_digest_agreement", "same_key_two_descriptions"]
+         "require", "summary_first_step", "multi_party_nested_dissent", "multi_party_digest_dissent", "match_partial_digest_agreement", "same_key_two_descriptions", "cosigned_by_outsider"]
 
 
 def outcome_key(run, last):
@@ -185,6 +185,14 @@ def build(rng, W, kind):
             add("build", o, variant_link("build", 0, 2 + t))
         layout = scen.mk_layout(W, [], steps, [], keys=table)
         return {"kind": kind, "layout": layout, "links": links, "reqs": reqs, "keys": keys, "sub": [], "probe": [W.kid(k), alt_id] + [W.kid(o) for o in others]}
+    elif kind == "cosigned_by_outsider":
+        # every link file also carries the signature of somebody who is not a functionary of the step (a colleague, a
+        # build service); what such an entry does to the verdict, it does on every run
+        outsider = rng.choice([k for k in POOL if k not in keys] or ["ed7"])
+        thr = rng.choice([1, 1, 2])
+        steps = [scen.mk_step("build", min(thr, n), [W.kid(k) for k in keys], [], [["ALLOW", "*"]], [["ALLOW", "*"]])]
+        for t, k in enumerate(keys):
+            add("build", k, variant_link("build", 0, 0), signers=rng.choice([[k, outsider], [outsider, k]]))
     elif kind == "two_failing_steps":
         steps = [scen.mk_step("build", 1, [W.kid(keys[0])], [], [], [["DISALLOW", "*"]]),
                  scen.mk_step("package", 1, [W.kid(keys[1])], [], [["DISALLOW", "*"]], [])]
@@ -464,6 +472,11 @@ def keyid_spelling(binpath, seed, sh, reps):
     l3["signatures"][0]["keyid"] = l3["signatures"][0]["keyid"].upper()
     cases.append(scen.verify_case(wires[1], keys, {f"build.{W.pfx(fn)}.link": scen.dumps(l3)}, reps=reps,
                                   meta={"kind": "keyid_capitals:link_signature", "nlinks": 1}))
+    # (d) the layout carries the signatures of two owners, the caller supplies the key of one
+    other_owner = rng.choice([k for k in ["ed0", "edp0", "ed1", "ec-a"] if k != owner])
+    w4 = scen.sign_all(binpath, [(one, [owner, other_owner], "new"), (one, [other_owner, owner], "builder")], nproc=1)
+    for w in w4:
+        cases.append(scen.verify_case(w, keys, link_files, reps=64, meta={"kind": "layout_signed_by_two_owners_one_supplied", "nlinks": 1}))
     # control: everything in lower case verifies
     cases.append(scen.verify_case(wires[1], keys, link_files, reps=8, meta={"kind": "keyid_capitals:control", "nlinks": 1}))
     obs = common.run_batch(binpath, cases)
@@ -504,7 +517,7 @@ def main(ctx):
              "non-trivial = the surplus links differ; distinct by (layout, directory); evaluations = verifications",
         assumptions=["fresh HashMap instances get fresh SipHash keys (std RandomState), fresh processes fresh base keys"],
         required=["kind:summary_only", "kind:disallow", "kind:match_next", "kind:delegated_surplus", "kind:require",
-                  "kind:multi_party_nested_dissent", "kind:same_key_two_descriptions", "history:delegated:outcomes:1", "history:accept", "history:failing_verifications_in_between",
+                  "kind:multi_party_nested_dissent", "kind:same_key_two_descriptions", "kind:cosigned_by_outsider", "history:delegated:outcomes:1", "history:accept", "history:failing_verifications_in_between",
                   "iteration_order_varied", "accept_seen", "kind:enumeration_order", "kind:sublayout_inspections_share_workdir", "kind:keyid_capitals:layout_signature",
                   "kind:keyid_capitals:key_table_member", "kind:keyid_capitals:control", "enumeration:symlink_listed_first",
                   "enumeration:symlink_listed_second"],
